@@ -73,7 +73,18 @@ def parse_bounce_names(body):
     return names, paras
 
 
-def project(trace, qdir, tables=None):
+def sender_form(sender):
+    """(form, base): plain | empty | dbl (#@[]) | verp (x-@host-@[] -> base x-@host)"""
+    if sender == b"":
+        return "empty", sender
+    if sender == b"#@[]":
+        return "dbl", sender
+    if len(sender) >= 4 and sender.endswith(b"-@[]"):
+        return "verp", sender[:-4]
+    return "plain", sender
+
+
+def project(trace, qdir, tables=None, dbto=b"postmaster@test.example"):
     T = tables or Tables()
     out = []
     filedata = {}     # ino -> bytearray (content written by the processes we follow)
@@ -101,7 +112,7 @@ def project(trace, qdir, tables=None):
         if c == "ctl":
             op = e["op"]
             if op == "start":
-                ev("start", e, conc=e["conc"], announce=e["announce"])
+                ev("start", e, conc=e["conc"], announce=e["announce"], s=T.a(b""), d=T.a(b"#@[]"), a=T.a(dbto))
             elif op == "inject":
                 inj[e["pid"]] = {"sender": bytes.fromhex(e["sender"]), "rcpts": [bytes.fromhex(r) for r in e["rcpts"]]}
             elif op == "delcmd":
@@ -125,11 +136,17 @@ def project(trace, qdir, tables=None):
             elif op == "clock":
                 ev("clock", e)
             elif op == "quiet":
-                ev("quiet", e, tmo=e["tmo"], k=e["send"])
+                ev("quiet", e, tmo=e.get("rem", e["tmo"]), k=e["send"], extra=e.get("noticed", 1))
             elif op == "spawnerdied":
                 ev("spawnerdied", e, c=e["chan"])
             elif op == "reaped" and e["pid"] in sendpids:
                 ev("sendexit", e, status=e["status"])
+            elif op == "end":
+                ev("end", e, extra=e["left"])
+            elif op == "stopped":
+                ev("stopped", e)
+            elif op == "noexit":
+                ev("noexit", e)
             continue
         if is_send:
             sendpids.add(pid)
@@ -187,7 +204,8 @@ def project(trace, qdir, tables=None):
                 sender = next((r[1:] for r in recs if r.startswith(b"F")), b"")
                 rcpts = [r[1:] for r in recs if r.startswith(b"T")]
                 parent_send = role.startswith("send:")
-                ev("accept", e, n=T.n(n2), s=T.a(sender), rc=[T.a(r) for r in rcpts], extra=1 if parent_send else 0)
+                form, base = sender_form(sender)
+                ev("accept", e, n=T.n(n2), s=T.a(sender), rc=[T.a(r) for r in rcpts], extra=1 if parent_send else 0, k=form, to=T.a(base))
                 inj.setdefault(pid, {})["n"] = n2
                 if parent_send:
                     child_of_send[pid] = {"n": n2, "sender": sender, "rcpts": rcpts}
@@ -215,6 +233,7 @@ def project(trace, qdir, tables=None):
                 ev("rminfo", e, n=T.n(n), extra=1 if is_send else 0)
             elif d in ("local", "remote"):
                 ev("rmchan", e, n=T.n(n), c=0 if d == "local" else 1)
+                inode_of.pop((d, n), None)
             elif d == "mess":
                 ev("rmmess", e, n=T.n(n))
             elif d == "todo":
